@@ -102,4 +102,42 @@ class VTaskEmpty(Task):
         pass
 
 
-TASK_CLASSES = [VTask, VTaskOut, VTaskBag, VTaskEmpty]
+class VTaskRelay(Task):
+    """A task that works on a configuration in place and hands the SAME object on: when `child` is a plain
+    configuration (typically the output of another task) task_outputs returns dep(self.child) - the object is
+    now the output of this task -; otherwise a fresh marked configuration"""
+
+    name: Param[str]
+    child: Param[Optional[Config]] = None
+    bag: Param[Optional[Config]] = None
+    items: Param[List[Config]] = []
+    table: Param[Dict[str, Config]] = {}
+
+    def task_outputs(self, dep):
+        if self.child is not None and not isinstance(self.child, Task):
+            return dep(self.child)
+        return dep(Out(x=2))
+
+    def execute(self):
+        pass
+
+
+class VTaskLoad(Task):
+    """The serializer pattern: the output is an unmarked configuration that carries a pre-task (a lightweight
+    loader) marked as produced by this task.  The loaders of all VTaskLoad tasks are structurally equal."""
+
+    name: Param[str]
+    child: Param[Optional[Config]] = None
+    bag: Param[Optional[Config]] = None
+    items: Param[List[Config]] = []
+    table: Param[Dict[str, Config]] = {}
+
+    def task_outputs(self, dep):
+        out = Out(x=3)
+        return out.add_pretasks(dep(Pre(x=0)))
+
+    def execute(self):
+        pass
+
+
+TASK_CLASSES = [VTask, VTaskOut, VTaskBag, VTaskEmpty, VTaskRelay, VTaskLoad]
